@@ -128,8 +128,13 @@ private theorem default_abstracts_big_int (k : Const) (ctx : Instr) (hk : k.kind
     rw [Bool.eq_false_iff]
     intro hs
     apply hb
-    simp only [LiteralPolicy.isSmallInt, Bool.and_eq_true, decide_eq_true_eq, and_assoc] at hs
-    exact hs.2
+    simp only [LiteralPolicy.isSmallInt, Bool.and_eq_true] at hs
+    obtain ⟨_, hs⟩ := hs
+    by_cases hf : k.fits64 = true
+    · simp only [hf, if_true, Bool.and_eq_true, decide_eq_true_eq] at hs
+      exact ⟨hf, hs.1, hs.2⟩
+    · simp only [hf] at hs
+      simp [defaultLiteralPolicy] at hs
   unfold LiteralPolicy.shouldAbstract
   simp only [hk, hs]
   unfold LiteralPolicy.contextRule LiteralPolicy.indexCase
